@@ -1,8 +1,65 @@
 (** C16 — the predicates used in the theorem statements (all boolean / decidable) and the witnesses. *)
 From stdpp Require Import gmap strings sets pretty sorting.
 From Coq Require Import Ascii.
-From SK Require Import lib.Tok model.C15_Model model.C16_Model.
+From SK Require Import lib.Tok model.C15_Model model.C16_Model proof.C15_Proof.
 Local Open Scope string_scope.
+
+Global Instance rxn_eq_dec : EqDecision rxn.
+Proof. solve_decision. Defined.
+Global Instance cerr_eq_dec : EqDecision cerr.
+Proof. solve_decision. Defined.
+
+(** * Decidable well-formedness of a network (implied by the store invariant [Inv] of C15: [Inv_wf16]) *)
+(** no stored reaction is empty or has an empty rule name *)
+Definition wf_rxns (H : net) : Prop := map_Forall (λ _ rx, rxn_empty rx = false ∧ r_rule rx ≠ "") (edges H).
+(** the species that occur in some stored reaction *)
+Definition occurring (H : net) : gset string := ⋃ (rxn_species <$> (map_to_list (edges H)).*2).
+(** occurring species are registered and have a non-empty index entry *)
+Definition wf_species (H : net) : Prop :=
+  set_Forall (λ x, x ∈ species H ∧ (default ∅ (s_in H !! x) ≠ ∅ ∨ default ∅ (s_out H !! x) ≠ ∅)) (occurring H).
+(** the insertion-order list is a duplicate-free enumeration of the ids *)
+Definition wf_order (H : net) : Prop := NoDup (order H) ∧ list_to_set (order H) = dom (edges H).
+Definition wf16 (H : net) : Prop := wf_rxns H ∧ wf_species H ∧ wf_order H ∧ dom (mol H) ⊆ species H.
+Global Instance wf16_dec H : Decision (wf16 H).
+Proof. unfold wf16, wf_rxns, wf_species, wf_order. apply _. Defined.
+
+Lemma elem_of_occurring H x : x ∈ occurring H ↔ ∃ e rx, edges H !! e = Some rx ∧ x ∈ rxn_species rx.
+Proof.
+  unfold occurring. rewrite elem_of_union_list. split.
+  - intros (X & HX & Hx). apply elem_of_list_fmap in HX as (rx & -> & Hrx).
+    apply elem_of_list_fmap in Hrx as ([e rx'] & -> & Hin). apply elem_of_map_to_list in Hin. eauto.
+  - intros (e & rx & He & Hx). exists (rxn_species rx). split; [|done].
+    apply elem_of_list_fmap. exists rx. split; [done|]. apply elem_of_list_fmap. exists (e, rx). split; [done|].
+    by apply elem_of_map_to_list.
+Qed.
+
+Lemma Inv_wf16 H : Inv H → wf16 H.
+Proof.
+  intros HI. split_and!.
+  - intros e rx He. split; [by eapply inv_nonempty|by eapply inv_rule].
+  - intros x Hx. apply elem_of_occurring in Hx as (e & rx & He & Hx). split.
+    + apply (inv_occ _ HI). by exists e, rx.
+    + rewrite (inv_in _ HI), (inv_out _ HI). apply elem_of_union in Hx as [Hx|Hx]; [right|left].
+      * intros Hem. assert (e ∈ consumers (edges H) x) as Hc by (apply elem_of_consumers; eauto). set_solver.
+      * intros Hem. assert (e ∈ producers (edges H) x) as Hc by (apply elem_of_producers; eauto). set_solver.
+  - split; [apply HI|]. apply set_eq. intros e. rewrite elem_of_list_to_set, elem_of_dom. apply HI.
+  - apply HI.
+Qed.
+
+(** * Preconditions of the three round trips *)
+(** string node ids: no species node gets the same id as a reaction node (automatic with the default prefixes
+    "S:" / "R:" is NOT assumed here: the statement is about any prefix pair) *)
+Definition bip_names_ok (fl : bflags) (H : net) : Prop :=
+  f_int fl = true ∨
+  set_Forall (λ s, set_Forall (λ e, default "" (f_sp fl) +:+ s ≠ default "" (f_rp fl) +:+ e) (dom (edges H))) (species H).
+Global Instance bip_names_ok_dec fl H : Decision (bip_names_ok fl H).
+Proof. unfold bip_names_ok. apply _. Defined.
+
+(** every reaction has reactants and products *)
+Definition two_sided (H : net) : Prop := map_Forall (λ _ rx, r_lhs rx ≠ ∅ ∧ r_rhs rx ≠ ∅) (edges H).
+Global Instance two_sided_dec H : Decision (two_sided H).
+Proof. unfold two_sided. apply _. Defined.
+Definition stoich_of (rx : rxn) : side * side := (r_lhs rx, r_rhs rx).
 
 (** the reactions of a network as a multiset (list up to permutation) of (rule, reactants, products) *)
 Definition rxns_of (H : net) : list rxn := (map_to_list (edges H)).*2.
